@@ -355,7 +355,48 @@ func execNode(a map[string]string) string {
 		wf = fmt.Sprintf("0:journal-commits-%d-app-height-%d", committed, r.FinalApp)
 	}
 	heq := bit(r.FinalHashEq)
-	return fmt.Sprintf("done app=%d store=%d state=%d heq=%s wf=%s hs=%s", r.FinalApp, r.FinalStore, r.FinalState, heq, wf, hs)
+	return fmt.Sprintf("done app=%d store=%d state=%d heq=%s wf=%s hs=%s inc=%s", r.FinalApp, r.FinalStore, r.FinalState, heq, wf, hs, incarnations(r))
+}
+
+// incarnations: per process incarnation, the (app/store/state) triple it found, the triple right
+// after its handshake (if that completed) and the calls it made on the consensus connection
+// (DeliverTx left out: which transactions a block of the real node carries is a matter of timing)
+func incarnations(r nodeResult) string {
+	var segs [][]string
+	cur := []string{}
+	for _, tok := range r.Journal {
+		if tok == "R" {
+			segs = append(segs, cur)
+			cur = []string{}
+			continue
+		}
+		if tok[0] != 'T' {
+			cur = append(cur, tok)
+		}
+	}
+	segs = append(segs, cur)
+	var incs []string
+	tri := func(l string) string {
+		t := kv(l)
+		return t["app"] + "/" + t["store"] + "/" + t["state"]
+	}
+	i := 0
+	for k := 0; k < len(r.Trace); k++ {
+		if !strings.HasPrefix(r.Trace[k], "pre ") {
+			continue
+		}
+		post := "-"
+		if k+1 < len(r.Trace) && strings.HasPrefix(r.Trace[k+1], "post ") {
+			post = tri(r.Trace[k+1])
+		}
+		js := "-"
+		if i < len(segs) && len(segs[i]) > 0 {
+			js = strings.Join(segs[i], ".")
+		}
+		incs = append(incs, tri(r.Trace[k])+">"+post+":"+js)
+		i++
+	}
+	return strings.Join(incs, ";")
 }
 
 func preShape(l string) string {
@@ -381,7 +422,7 @@ func preShape(l string) string {
 func isHostile(c core.Case) bool {
 	for _, op := range c.Ops {
 		switch strings.Fields(op + " x")[0] {
-		case "rollback", "appextra", "setresp", "saveblock":
+		case "appextra", "setresp", "saveblock":
 			return true
 		}
 	}
@@ -452,6 +493,8 @@ func oracle(c core.Case, out []string) []core.Finding {
 				add("commit.completed-but-out-of-sync", o)
 			}
 			lastUp = t["up"] == "1"
+		case "rollback", "appextra", "saveblock":
+			lastUp = false
 		case "check":
 			if hostile {
 				break
@@ -587,10 +630,11 @@ func genChain(r *rand.Rand, n int) string {
 		}
 		bs[i] = strings.Join(ts, ".")
 	}
+	ih := []string{"", "", "", " ih=1", " ih=2", " ih=5", " ih=100"}[r.Intn(7)]
 	if n == 0 {
-		return "chain n=0 txs=-"
+		return "chain n=0 txs=-" + ih
 	}
-	return fmt.Sprintf("chain n=%d txs=%s", n, strings.Join(bs, ","))
+	return fmt.Sprintf("chain n=%d txs=%s%s", n, strings.Join(bs, ","), ih)
 }
 
 func crashTok(r *rand.Rand, max int) string {
@@ -647,6 +691,39 @@ func gen(r *rand.Rand, tier string, emit func(core.Case)) {
 				}
 			}
 		}
+	}
+	// (a1-ih) first block of a chain with InitialHeight > 1: every crash prefix, then a crash prefix of the recovery
+	for _, ih := range []int{2, 7} {
+		for k := 0; k <= 11; k++ {
+			j := r.Intn(8) - 2
+			ops := []string{fmt.Sprintf("chain n=2 txs=1.17,8 ih=%d", ih), "start crash=-", fmt.Sprintf("commit crash=%d%s", k, midTok(r))}
+			if j >= 0 {
+				ops = append(ops, fmt.Sprintf("start crash=%d", j))
+			}
+			ops = append(ops, "start crash=-", "commit crash=-", "check")
+			emit(core.Case{Kind: "pipe-initial-height", Ops: ops})
+		}
+	}
+	// (a1-rb) application restored from an older snapshot of itself (any number of blocks behind),
+	// crashes while the handshake replays the missing blocks
+	for i := 0; i < 200*scale; i++ {
+		n := 2 + r.Intn(4)
+		ops := []string{genChain(r, n), "start crash=-"}
+		for h := r.Intn(n + 1); h > 0; h-- {
+			ops = append(ops, "commit crash=-")
+		}
+		if r.Intn(2) == 0 {
+			ops = append(ops, "commit "+crashTok(r, 10))
+		}
+		ops = append(ops, fmt.Sprintf("rollback n=%d", 1+r.Intn(4)))
+		for d := r.Intn(3); d > 0; d-- {
+			ops = append(ops, "start "+crashTok(r, 14)+midTok(r))
+			if r.Intn(3) == 0 {
+				ops = append(ops, fmt.Sprintf("rollback n=%d", 1+r.Intn(2)))
+			}
+		}
+		ops = append(ops, "start crash=-", "commit crash=-", "check")
+		emit(core.Case{Kind: "pipe-rollback", Ops: ops})
 	}
 	// (a2) random walks: crashes anywhere, repeated crashes while recovering, crashes at genesis
 	for i := 0; i < 600*scale; i++ {
@@ -799,7 +876,8 @@ func gen(r *rand.Rand, tier string, emit func(core.Case)) {
 		if len(txs) > 0 {
 			ts = strings.Join(txs, ",")
 		}
-		emit(core.Case{Kind: "node", Ops: []string{fmt.Sprintf("node blocks=%d fails=%s mp=%s txs=%s", blocks, strings.Join(fails, ","), []string{"v0", "v1"}[r.Intn(2)], ts)}})
+		ih := []string{"", "", " ih=3", " ih=50"}[r.Intn(4)]
+		emit(core.Case{Kind: "node", Ops: []string{fmt.Sprintf("node blocks=%d fails=%s mp=%s txs=%s%s", blocks, strings.Join(fails, ","), []string{"v0", "v1"}[r.Intn(2)], ts, ih)}})
 	}
 }
 
